@@ -856,7 +856,8 @@ class Exec(ExprMixin, CallMixin):
             # preconditions
             self.spec_mode = True
             pres = [(k, self.truth(self.eval(parse_expr(e)))) for k, e in ct.requires.items()]
-            if ct.uses_invariant and "self" in bound and ct.cls in self.reg.classes and ct.ghost.get("requires_inv", False):
+            same_obj = self.self_sv is not None and "self" in bound and z3.eq(z3.simplify(bound["self"].t), z3.simplify(self.self_sv.t))
+            if ct.uses_invariant and "self" in bound and ct.cls in self.reg.classes and same_obj:
                 for k, e in self.reg.classes[ct.cls].invariant.items():
                     pres.append(("inv:" + k, self.truth(self.eval(parse_expr(e)))))
             self.spec_mode = sm
